@@ -84,6 +84,8 @@ Holds(p) ==
     [] p = "C08" -> C08
     [] p = "C14" -> C14
     [] p = "C16" -> C16
+    [] p = "C15" -> C15
+    [] p = "C09" -> C09
     [] p = "C12" -> C12 /\ C01 /\ C03 /\ C05
     [] p = "C10" -> C01 /\ C02 /\ C03 /\ C04 /\ C05 /\ C06
     [] p = "C11" -> C01 /\ C02 /\ C05 /\ C06 /\ C08 /\ C11x
@@ -105,7 +107,7 @@ SeenFlags(seen, h2, g2, x2) ==
   IN (IF \E j \in 1..Len(seen) : bad(seen[j]) THEN {"C06"} ELSE {})
      \cup (IF \E j \in 1..Len(seen) : badW(seen[j]) THEN {"C05"} ELSE {})
 
-DropOps  == {"DropRoot", "DropStored"}
+DropOps  == {"DropRoot", "DropStored", "DecStrong", "MakeMut"}      \* calls that drop a strong handle
 CloneOps == {"CloneRoot", "CloneStored"}
 
 MonStep ==
@@ -113,12 +115,17 @@ MonStep ==
   /\ LET ln == Rec[l] IN
      /\ l' = l + 1
      /\ CASE ln.k = "reset" ->
-             /\ heap' = Heap0 /\ led' = Led0 /\ ob' = Ob0 /\ ctl' = Ctl0 /\ sn' = ln.script
+             \* the same script may be replayed under several heap layouts (consecutive resets
+             \* with the same script number): the outcomes of layout 0 are kept as the baseline
+             /\ heap' = Heap0 /\ led' = Led0 /\ ctl' = Ctl0 /\ sn' = ln.script
+             /\ ob' = [Ob0 EXCEPT !.layout = ln.layout,
+                                  !.base = IF ln.layout = 0 THEN <<>>
+                                           ELSE IF ob.layout = 0 THEN ob.sig ELSE ob.base]
           [] ln.k = "call" ->
              LET g1 == LC(ln.op, ln.a, ln.b)
                  x0 == IF ln.depth = 0 THEN NewCall(ln.op, ln.a, ln.b)
                        ELSE [ob EXCEPT !.call = [op |-> ln.op, a |-> ln.a, b |-> ln.b]]
-                 tg == IF ln.op = "DropRoot" THEN ln.a ELSE ln.b
+                 tg == IF ln.op = "DropStored" THEN ln.b ELSE ln.a
                  x1 == IF ln.op \in DropOps
                        THEN (IF ln.depth = 0 THEN DropObs(x0, g1, tg)
                              ELSE [x0 EXCEPT !.must = @ \cup Demand(g1, x0, tg), !.dcset = @ \cup DCSet(g1, x0, tg)])
@@ -136,11 +143,23 @@ MonStep ==
                        THEN UpgradeFlag(IF ln.op = "Upgrade" THEN ln.a ELSE ln.b, ln.ret = "some")
                        ELSE {}
                  c14 == IF ln.depth = 0 /\
-                           \/ ln.op \in DropOps /\ ob.empty0 /\ (ln.cnt.ntrace1 > 0 \/ ln.cnt.nalloc1 > 0)
+                           \/ ln.op \in {"DropRoot", "DropStored", "DecStrong"} /\ ob.empty0
+                              /\ (ln.cnt.ntrace1 > 0 \/ ln.cnt.nalloc1 > 0)
+                           \/ ln.op = "MakeMut" /\ ob.empty0 /\ ln.cnt.ntrace1 > 0
                            \/ ln.op \in CloneOps /\ (ln.cnt.ntrace > 0 \/ ln.cnt.nalloc > 0)
                         THEN {"C14"} ELSE {}
                  sf == IF ln.depth = 0 THEN SeenFlags(ln.seen, h2, g2, x1) ELSE {}
-                 x2 == [x1 EXCEPT !.ret = ln.ret, !.flags = @ \cup up \cup c14 \cup sf,
+                 c16 == IF ln.op \in {"CloneRoot", "IncStrong"} THEN CloneFlag(ln.a, ln.ret)
+                        ELSE IF ln.op = "CloneStored" THEN CloneFlag(ln.b, ln.ret) ELSE {}
+                 \* C09: outcome of this call = result, destroyed SET, everything observable after it
+                 sg  == [ret |-> ln.ret, dset |-> {ob.dlog[i] : i \in 1..Len(ob.dlog)}, heap |-> h2,
+                         nd |-> x1.nd, nf |-> x1.nf, seen |-> ln.seen]
+                 sig2 == IF ln.depth = 0 THEN Append(ob.sig, sg) ELSE ob.sig
+                 c09 == IF ln.depth = 0 /\ ob.layout > 0 /\
+                           (Len(sig2) > Len(ob.base) \/ ob.base[Len(sig2)] # sg)
+                        THEN {"C09"} ELSE {}
+                 c15 == IF ln.cnt.nvisit > ln.cnt.ntrace * Cardinality(Made(g2)) THEN {"C15"} ELSE {}
+                 x2 == [x1 EXCEPT !.ret = ln.ret, !.flags = @ \cup up \cup c14 \cup sf \cup c15 \cup c16 \cup c09, !.sig = sig2,
                                   !.ntrace = ln.cnt.ntrace, !.npop = ln.cnt.npop,
                                   !.nvisit = ln.cnt.nvisit, !.nmember = ln.cnt.nmember]
              IN /\ heap' = h2
